@@ -12,11 +12,13 @@ SEED=${VERIF_SEED:-1}
 declare -A PKG=(
  [C01]=pkt [C02]=pkt [C03]=pkt [C04]=pkt [C05]=pkt [C06]=pkt [C08]=pkt [C09]=pkt [C10]=pkt [C11]=pkt [C14]=pkt
  [C12]=hs [C13]=hs
- [C07]=pure [C15]=pure [C16]=pure [C17]=pure [C18]=pure [C19]=pure [C34]=pure [C35]=pure [C47]=pure [C48]=pure
+ [C07]=pure [C15]=pure [C17]=pure [C34]=pure [C35]=pure [C47]=pure [C48]=pure
+ [C16]=store [C18]=store [C19]=store
  [C20]=tm [C21]=tm [C22]=tm [C23]=tm [C24]=tm [C25]=tm
  [C26]=lc [C27]=lc [C28]=lc [C29]=wasm
- [C30]=xfer [C31]=xfer [C32]=xfer [C33]=xfer [C36]=xfer [C41]=xfer [C42]=xfer [C43]=xfer [C49]=xfer
- [C37]=apps [C38]=apps [C39]=apps [C40]=apps
+ [C30]=xfer [C31]=xfer [C32]=xfer [C33]=xfer [C43]=xfer [C49]=xfer
+ [C41]=rl [C42]=rl [C36]=authz
+ [C37]=ica [C38]=ica [C39]=gmpcb [C40]=gmpcb
  [C44]=sys [C45]=sys [C46]=sys
 )
 pkg=${PKG[$PROP]:-}
@@ -62,5 +64,5 @@ for p in "${pids[@]}"; do wait "$p"; done
 t2=$(date +%s)
 python3 /verif/merge.py "$PROP" "$TIER" "$SEED" "$OUT" "$((t1-t0))" "$((t2-t1))" "${ONLY:+replay}"
 rc=$?
-[ $rc -eq 0 ] && [ -z "${VERIF_KEEP:-}" ] && rm -rf "$OUT"
+{ [ $rc -eq 0 ] || [ -n "${VERIF_EVIDENCE_DIR:-}" ]; } && [ -z "${VERIF_KEEP:-}" ] && rm -rf "$OUT"
 exit $rc
